@@ -31,7 +31,9 @@
      held              describeRequestsOnHold ++ readerAddRequestsOnHold (callers waiting for an answer of this path that
                        the running handler is not going to answer)
      PaTRemove         after runInner returned (only on <-pa.ctx.Done()): at pa.parent.removePath(pa)
-     PaTHeld           after pa.ctxCancel(): answering the requests on hold with "terminated", one by one
+     PaTHeld           after pa.ctxCancel() (a no-op: runInner only returns once pa.ctx is done; `pctx` therefore
+                       records exactly "the path manager called pa.close()"): answering the requests on hold with
+                       "terminated", one by one
      PaTNotReady       `if pa.stream != nil { pa.setNotAvailable() }` -> at pa.parent.setPathNotReady(pa)
      PaDead            wg.Done(); close(pa.done)
 
@@ -71,9 +73,9 @@ Inductive ckind := KCall | KReload (ps : list pid).
 Inductive cres :=
 | DPmErr        (* error answered by the path manager (no such path, authentication…) *)
 | DPmTerm       (* "terminated": <-pm.ctx.Done() in the caller's first select *)
-| DPaTerm       (* "terminated": <-pa.ctx.Done() in the caller's second select *)
+| DPaTerm (p : pid)   (* "terminated": <-pa.ctx.Done() of path p in the caller's second select *)
 | DPaAns        (* answered by a handler of the path *)
-| DPaTermAns    (* a request on hold answered "terminated" by the terminating path *)
+| DPaTermAns (p : pid)   (* a request on hold answered "terminated" by the terminating path p *)
 | DReload.      (* ReloadPathConfs delivered *)
 
 Inductive c_pc :=
@@ -270,7 +272,7 @@ Definition step (esc : bool) (s : state) (l : label) : option state :=
       end
   | LCEscPa c =>
       match callers s c with
-      | CAtPa p => if pa_done s p then Some (set_caller s c (CDone DPaTerm)) else None
+      | CAtPa p => if pa_done s p then Some (set_caller s c (CDone (DPaTerm p))) else None
       | _ => None
       end
   | LPaRecv c sc =>
@@ -322,13 +324,13 @@ Definition step (esc : bool) (s : state) (l : label) : option state :=
   | LPaTRemPm p =>
       let x := paths s p in
       match ppc x, pm s with
-      | PaTRemove, PmIdle => Some (set_path s p (with_ctx (with_pc x PaTHeld)))
+      | PaTRemove, PmIdle => Some (set_path s p (with_pc x PaTHeld))
       | _, _ => None
       end
   | LPaTRemEsc p =>
       let x := paths s p in
       match ppc x with
-      | PaTRemove => if pa_escape esc s p then Some (set_path s p (with_ctx (with_pc x PaTHeld))) else None
+      | PaTRemove => if pa_escape esc s p then Some (set_path s p (with_pc x PaTHeld)) else None
       | _ => None
       end
   | LPaTAns p =>
@@ -336,7 +338,7 @@ Definition step (esc : bool) (s : state) (l : label) : option state :=
       match ppc x, held x with
       | PaTHeld, c :: r =>
           match callers s c with
-          | CWaitPa q => if Nat.eqb q p then Some (set_caller (set_path s p (with_held x r)) c (CDone DPaTermAns)) else None
+          | CWaitPa q => if Nat.eqb q p then Some (set_caller (set_path s p (with_held x r)) c (CDone (DPaTermAns p))) else None
           | _ => None
           end
       | _, _ => None
